@@ -134,7 +134,7 @@ def state_equal(a, b):
 
 
 MUTATIONS = ["set_inputs", "add_inputs", "node_name", "needs_seed", "function", "distribution", "at", "per_obs",
-             "value_node", "dist_node", "var_name", "observed", "parameter", "transform"]
+             "value_node", "dist_node", "var_name", "var_name", "var_name_empty", "observed", "parameter", "transform"]
 
 
 def attempt(model, which, pick):
@@ -176,6 +176,8 @@ def attempt(model, which, pick):
                 v.dist_node = lsl.Dist(tfd.Normal, loc=0.0, scale=1.0)
             elif which == "var_name":
                 v.name = "renamed_var"
+            elif which == "var_name_empty":
+                v.name = ""
             elif which == "observed":
                 v.observed = not v.observed
             elif which == "parameter":
@@ -293,6 +295,18 @@ def oracle(case):
             s = sources[op[1] % len(sources)]
             val = gg._val(spec[s], op[2])
             name = b.value_node(s).name
+            if op[2] % 3 == 0:
+                # same assignment with auto-update off followed by a targeted update of one node: its ancestors must be
+                # evaluated in topological order (coherence of everything that reports itself up to date), then a full update
+                for mm in models:
+                    names_all = sorted(mm.nodes)
+                    tgt_name = names_all[(op[1] * 7 + op[2]) % len(names_all)]
+                    mm.auto_update = False
+                    mm.nodes[name].value = val
+                    mm.update(tgt_name)
+                    check_coherent(b, mm, "after-targeted-update:", lambda: f"step {step} target {tgt_name}; {det()}")
+                    mm.update()
+                    mm.auto_update = True
             for mm in models:
                 mm.nodes[name].value = val
             for mm in models:
